@@ -436,7 +436,7 @@ def run(prop, plan, tier, seed, replay, wd, known, t0):
         "wall_s": round(time.time() - t0, 1),
         "violations": len(viol_lines),
     }
-    if not replay:
+    if not replay and not os.environ.get("VERIF_NO_EVIDENCE"):
         json.dump(ev, open(os.path.join(VERIF, "evidence", "%s.json" % prop), "w"), indent=1)
     for ln in known_lines:
         print(ln)
